@@ -1,4 +1,5 @@
 from collections.abc import Callable
+from threading import RLock
 from typing import Any, TypeVar
 
 import reactivex
@@ -8,6 +9,7 @@ from reactivex.disposable import (
     SerialDisposable,
     SingleAssignmentDisposable,
 )
+from reactivex.internal import synchronized
 
 _T = TypeVar("_T")
 
@@ -59,16 +61,23 @@ def timeout_with_mapper_(
 
             switched = False
             _id = [0]
+            # A timeout observable usually fires on another thread: who wins
+            # (timeout or source notification) must be decided atomically
+            lock = RLock()
 
             def set_timer(timeout: Observable[Any]) -> None:
                 my_id = _id[0]
 
                 def timer_wins():
-                    return _id[0] == my_id
+                    nonlocal switched
+                    wins = _id[0] == my_id
+                    switched = switched or wins
+                    return wins
 
                 d = SingleAssignmentDisposable()
                 timer.disposable = d
 
+                @synchronized(lock)
                 def on_next(x: Any) -> None:
                     if timer_wins():
                         subscription.disposable = other_.subscribe(
@@ -77,10 +86,12 @@ def timeout_with_mapper_(
 
                     d.dispose()
 
+                @synchronized(lock)
                 def on_error(e: Exception) -> None:
                     if timer_wins():
                         observer.on_error(e)
 
+                @synchronized(lock)
                 def on_completed() -> None:
                     if timer_wins():
                         subscription.disposable = other_.subscribe(observer)
@@ -98,6 +109,7 @@ def timeout_with_mapper_(
 
                 return res
 
+            @synchronized(lock)
             def on_next(x: _T) -> None:
                 if observer_wins():
                     observer.on_next(x)
@@ -116,10 +128,12 @@ def timeout_with_mapper_(
 
                     set_timer(timeout)
 
+            @synchronized(lock)
             def on_error(error: Exception) -> None:
                 if observer_wins():
                     observer.on_error(error)
 
+            @synchronized(lock)
             def on_completed() -> None:
                 if observer_wins():
                     observer.on_completed()
